@@ -199,3 +199,51 @@ func HarnessC14Missing() {
 	}
 	verifReach("C14.Missing")
 }
+
+// HarnessC14MapMissing: MapPollard.GetMissingPositions + VerifyPartialProof on a partial forest after
+// an honest history.  For any ordered selection D of live leaves the reported positions must be exactly
+// RM's canonical proof positions of D that the forest does not store (read from its node map, in RM's
+// own numbering), ascending; supplying RM's hashes at exactly those positions makes VerifyPartialProof
+// accept.
+func HarnessC14MapMissing() {
+	w := newWorld()
+	w.history("C14.history", false)
+	m := w.part
+	v := w.rm.view()
+	tv := w.rm.viewRows(m.TotalRows)
+	sd := refPickSubset("D", w.rm.liveSlots(), verifParam("K", 2))
+	if len(sd) == 0 {
+		return
+	}
+	pd, hd, didx := c14Proof(w.rm, v, sd)
+	tg := make([]uint64, len(pd.Targets), len(pd.Targets)+2)
+	copy(tg, pd.Targets)
+	verifOwn(tg, "targets")
+	got := m.GetMissingPositions(tg)
+	verifCheckOwned("C17.MapPollard.GetMissingPositions")
+	need, _ := v.proofIdx(didx)
+	nm := m.Nodes.(*NodesMap).m
+	var want []uint64
+	var wantHashes []Hash
+	for _, x := range need {
+		// the same node in the forest's own row numbering
+		y := tv.nodeAt(refStart(v.nodes[x].row, tv.rows) + (v.nodes[x].pos - refStart(v.nodes[x].row, v.rows)))
+		stored := false
+		if y >= 0 {
+			_, stored = nm[tv.nodes[y].pos]
+		}
+		if !stored {
+			want = append(want, v.nodes[x].pos)
+			wantHashes = append(wantHashes, v.nodes[x].hash)
+		}
+	}
+	verifAssert(len(got) == len(want), "C14.MapMissing.count")
+	if len(got) == len(want) {
+		for i := range want {
+			verifAssert(got[i] == want[i], "C14.MapMissing.position")
+		}
+	}
+	err := m.VerifyPartialProof(tg, hd, wantHashes, false)
+	verifAssert(err == nil, "C14.MapMissing.completed-proof-verifies")
+	verifReach("C14.MapMissing")
+}
